@@ -4,8 +4,7 @@
    What is VRL's own code is modelled concretely: the three algorithm tables (the `match` of `encrypt`, the
    `match` of `decrypt`, `is_valid_algorithm` used by both `compile`s), the upper-casing of the algorithm name,
    the key / IV length checks and their order, which primitive + padding each name selects, the mapping of
-   library errors (`Invalid input` for a CBC padding error, `.expect(..)` = panic on an AEAD authentication
-   error), the IP text <-> address <-> 16 bytes conversions and the mode / key checks of the IP functions.
+   library errors (`Invalid input` for a CBC padding error and for an AEAD authentication error), the IP text <-> address <-> 16 bytes conversions and the mode / key checks of the IP functions.
    The library primitives are arguments (record `prims` / `ipprims`): the block cipher (E, D), the AEAD
    seal/open pairs, the two ipcrypt permutations.  Modes and paddings on top of the block cipher are
    Model/Modes.v and Model/Padding.v. *)
@@ -158,7 +157,7 @@ Definition prim_decrypt (P : prims) (pr : prim) (c k iv : bytes) : cres :=
   | PAead a =>
       match pOpen P a k iv c with
       | Some m => COk m
-      | None => CPanic                                           (* .expect("key/iv sizes were already checked") *)
+      | None => CErrInput                                        (* .map_err(|_| "Invalid input")? (a3fbb82; it was an .expect) *)
       end
   end.
 
@@ -228,8 +227,9 @@ Inductive ipres := IpOk (s : bytes) | IpErrParse | IpErrMode | IpErrKey | IpPani
 Definition mode_aes128 : bytes := ascii_bytes "aes128".
 Definition mode_pfx : bytes := ascii_bytes "pfx".
 
-(* encrypt_ip (enc = true) / decrypt_ip (enc = false): parse, then the mode, then to_key (length), then
-   IpcryptPfx::new's assert_ne!(k1, k2) *)
+(* encrypt_ip (enc = true) / decrypt_ip (enc = false): parse, then the mode, then to_key (length) and, for pfx,
+   to_pfx_key's check that the two key halves differ (IpcryptPfx::new would assert it).  CPanic / IpPanic are no
+   longer produced by the model; they stay so that a panic of the implementation can never match a model outcome. *)
 Definition ip_crypt (enc : bool) (Q : ipprims) (ip key mode : bytes) : ipres :=
   match parse_ip ip with
   | None => IpErrParse
@@ -239,7 +239,7 @@ Definition ip_crypt (enc : bool) (Q : ipprims) (ip key mode : bytes) : ipres :=
         else IpOk (ip_text (bytes_to_ip ((if enc then detE Q else detD Q) key (ip_to_bytes a))))
       else if bytes_eqb mode mode_pfx then
         if negb (Nat.eqb (length key) 32) then IpErrKey
-        else if bytes_eqb (firstn 16 key) (skipn 16 key) then IpPanic
+        else if bytes_eqb (firstn 16 key) (skipn 16 key) then IpErrKey       (* ip_utils::to_pfx_key (fb618e6) *)
         else IpOk (ip_text (bytes_to_ip ((if enc then pfxE Q else pfxD Q) key (is_v4 a) (ip_to_bytes a))))
       else IpErrMode
   end.
